@@ -98,6 +98,9 @@ func (o *maurerOps) run(h *harness, r *vh.Rng) {
 		a, k := o.commit()
 		z1 := o.respond(e1)
 		e2 := es[(ci+1)%len(es)]
+		if ci == 1 {
+			e2 = e1 // equal challenges: the extractor must refuse (gcd(l, 0) = l)
+		}
 		z2 := o.respond(e2) // rewound prover: same first message, another challenge
 		cs := fmt.Sprintf("sigma %s k=%s w=%s e1=%s e2=%s", o.id, vecText(k), vecText(o.w), vh.Hex(e1), vh.Hex(e2))
 		h.res.Count("sigma-prove/"+o.id, cs, true)
